@@ -156,6 +156,8 @@ func (in *Interp) eval(fr *Frame, v ssa.Value) Value {
 		return Iface{t: i.X.Type(), v: in.get(fr, i.X)}
 	case *ssa.MakeMap:
 		return &Map{idx: map[string]int{}}
+	case *ssa.MakeChan:
+		return Ptr{c: newCell(Host{"chan"}, nil, 0)} // opaque: only its type matters (reflect kinds)
 	case *ssa.MakeSlice:
 		n := in.concreteInt(in.get(fr, i.Len), "make len")
 		c := in.concreteInt(in.get(fr, i.Cap), "make cap")
@@ -729,6 +731,10 @@ func (in *Interp) valEq(x, y Value) Value {
 	case *synthErr:
 		if b, ok := y.(*synthErr); ok {
 			return a == b
+		}
+	case *RType:
+		if b, ok := y.(*RType); ok {
+			return types.Identical(a.t, b.t)
 		}
 	}
 	panic(pathAbort{fmt.Sprintf("unsupported: == on %T and %T", x, y)})
